@@ -209,6 +209,7 @@ var specC20 = vstat.Spec[srvCase]{
 	Gen:         genC20,
 	Check:       checkC20,
 	Inflight:    true,
+	Confirm:     true,
 }
 
 func TestC20(t *testing.T)       { vstat.Check(t, specC20) }
@@ -398,6 +399,7 @@ var specC22 = vstat.Spec[srvCase]{
 	Gen:         genC22,
 	Check:       checkC22,
 	Inflight:    true,
+	Confirm:     true,
 }
 
 func TestC22(t *testing.T)       { vstat.Check(t, specC22) }
